@@ -22,7 +22,7 @@ TARGET = dict(
 )
 META = dict(
     technique="systematic concurrency testing: deterministic coroutine scheduler over the real urefcount / ubuf_mem_shared / pool code, random / PCT / exhaustively enumerated schedules, destructor and allocator accounting oracle (ASan for the buffer executor)",
-    text="Generated legal use/release programs of 2-3 threads on one urefcount, and dup/free/read programs on the handles of one ubuf_block_mem area (pool depths 0-2) over a counting umem, run under a deterministic scheduler with tape-driven schedules; the destructor (resp. the area's free) must happen exactly once and never while the harness counts an outstanding reference. Every interleaving of 6 small urefcount programs and every schedule with <= 2 (quick) / <= 3 (thorough) preemptions of 5 buffer programs is enumerated; the rest is sampled.",
+    text="Generated legal use/release programs of 2-3 threads on one urefcount, and dup/free/read programs on the handles of one ubuf_block_mem area (pool depths 0-2) over a counting umem, run under a deterministic scheduler with tape-driven schedules; the destructor (resp. the area's free) must happen exactly once and never while the harness counts an outstanding reference. Every interleaving of 6 small urefcount programs and every schedule with <= 2 (quick) / <= 3 (thorough) preemptions of 5 buffer programs is enumerated; the rest is sampled. Destructors that release another counted object re-entrantly, and a prelude of refused allocations before the race (the owner count must still be exact), are generated as well.",
     design_ref="DESIGN.md section 6, C09; section 3.2; appendix A.5",
     note="SC interleavings at hook granularity; pic/sound managers share ubuf_mem_shared and the pool helper with block (same inline code) and are not exercised separately; the mutant 'forget refcount->cb = NULL' is not observable by programs that respect the precondition.",
 )
